@@ -322,6 +322,50 @@ def _rtp_origin_stage(rep, thorough):
             raise T.MachineryError("media origin group: " + v)
     out["rtp_media_schedules"] = len(groups)
     out["rtp_media_runs"] = nruns
+    # receiver statistics: arrival histories in ideal (origin-free) terms executed on a real
+    # RTCRtpReceiver with small origins and with sequence numbers / timestamps next to the wrap
+    # points; what the receiver reports (relative to the origins) must be the same
+    from . import c18_rrstats as R18
+    sgroups = []
+    nh = 60 if thorough else 18
+    for i in range(nh):
+        h = R18.gen_history(r, ["plain", "wrapts", "transit0"][i % 3])
+        step = R18.STEP[h["clock"]]
+        obs, origins = [], []
+        for vi in range(3):
+            hv = copy.deepcopy(h)
+            for si, stm in enumerate(hv["streams"]):
+                if vi == 0:
+                    stm["seq0"], stm["tso"] = 100 + si, str(5000 + si)
+                elif vi == 1:
+                    stm["seq0"], stm["tso"] = 65535 - 2 - si, str((1 << 32) - 3 * step - 7 - si)
+                else:
+                    stm["seq0"], stm["tso"] = 32767 - si, str((1 << 31) - 2 * step - si)
+            tr = R18.execute(hv)
+            d = []
+            for stp in tr["steps"]:
+                if stp["op"] == "add":
+                    d.append([1, stp["s"], stp["recv"]])
+                elif stp["op"] == "report":
+                    for b in sorted(stp["reps"], key=lambda x: x["s"]):
+                        ext = ((b["hh"] << 16) | b["hl"]) - hv["streams"][b["s"] - 1]["seq0"]
+                        d.append([2, b["s"], b["fl"], b["pl"], ext >> 16, ext & 0xFFFF, b["jh"], b["jl"], stp["failed"]])
+                    if not stp["reps"]:
+                        d.append([2, 0, stp["failed"]])
+            obs.append(d)
+            origins.append([[stm["seq0"], stm["tso"]] for stm in hv["streams"]])
+        sgroups.append({"id": len(sgroups) + 1, "kind": "origins", "obs": obs, "origins": origins, "hist": h})
+    with T.Scratch(prefix="verif_c17s_") as sc:
+        _, sv = M11.judge(sc, [{k: g[k] for k in ("id", "kind", "obs")} for g in sgroups], timeout=900)
+    for g in sgroups:
+        v, pos = sv[g["id"]]
+        if v.startswith("C17."):
+            rep.violation(v, {"clause": v, "stage": "receiver_statistics"},
+                          {"stage": "receiver statistics (StreamStatistics / receiver reports)", "variant": pos, "origins": g["origins"]},
+                          {"kind": "stats_origins", "hist": g["hist"], "origins": g["origins"], "obs": g["obs"]})
+        elif v.startswith("machinery"):
+            raise T.MachineryError("statistics origin group: " + v)
+    out["rtp_statistics_histories_x_origins"] = 3 * len(sgroups)
     return out
 
 
@@ -948,6 +992,34 @@ def replay(prop, path):
         g = {"id": 1, "kind": "origins", "obs": [M11.digest(t) for t in trs]}
         with T.Scratch(prefix="verif_c17m_") as sc:
             _, mv = M11.judge(sc, [g], timeout=900)
+        v = mv[1][0]
+        if v == "ok":
+            print("replay: trace accepted on the current tree")
+            return 0
+        print("VIOLATION property=%s replay=%s clause=%s" % (prop, path, v))
+        return 1
+    if rp.get("kind") == "stats_origins":     # receiver statistics under three origins (C17 stage)
+        from . import c11_medialoop as M11
+        from . import c18_rrstats as R18
+        obs = []
+        for org in rp["origins"]:
+            hv = copy.deepcopy(rp["hist"])
+            for stm, (sq, ts) in zip(hv["streams"], org):
+                stm["seq0"], stm["tso"] = sq, ts
+            tr = R18.execute(hv)
+            d = []
+            for stp in tr["steps"]:
+                if stp["op"] == "add":
+                    d.append([1, stp["s"], stp["recv"]])
+                elif stp["op"] == "report":
+                    for b in sorted(stp["reps"], key=lambda x: x["s"]):
+                        ext = ((b["hh"] << 16) | b["hl"]) - hv["streams"][b["s"] - 1]["seq0"]
+                        d.append([2, b["s"], b["fl"], b["pl"], ext >> 16, ext & 0xFFFF, b["jh"], b["jl"], stp["failed"]])
+                    if not stp["reps"]:
+                        d.append([2, 0, stp["failed"]])
+            obs.append(d)
+        with T.Scratch(prefix="verif_c17s_") as sc:
+            _, mv = M11.judge(sc, [{"id": 1, "kind": "origins", "obs": obs}], timeout=600)
         v = mv[1][0]
         if v == "ok":
             print("replay: trace accepted on the current tree")
